@@ -25,7 +25,7 @@ Build == /\ IsEvent("build")
 Refs == /\ IsEvent("refs")
         /\ LET e == Rec[l]
                badroots == {k \in 1..Len(e.roots) : ~RootAllowed(e.config, e.crate_path, e.roots[k])}
-               badmacros == {k \in 1..Len(e.macros) : e.macros[k] \notin AllowedMacros} IN
+               badmacros == {k \in 1..Len(e.macros) : ~MacroAllowed(e.macros[k])} IN
            Require(badroots = {} /\ badmacros = {}, l, "refs",
                    [config |-> e.config, def |-> e.def, derive |-> e.derive, bad_roots |-> {e.roots[k] : k \in badroots},
                     bad_macros |-> {e.macros[k] : k \in badmacros}])
